@@ -88,9 +88,7 @@ _TIMEOUTS = {'n': 0}
 def impl(line):
     """after three watchdog time-outs (a constructor loop that no longer terminates) every further call gets
     50 ms instead of the framework's 2-10 s, so a broken loop is reported in seconds, not hours"""
-    if _TIMEOUTS['n'] >= 3 and not line.startswith('np.'):
-        with common.watchdog(0.05):
-            return _impl(line)
+    # (the framework's own patience ends after five confirmed time-outs: common.Run.call_impl)
     try:
         return _impl(line)
     except common.ImplTimeout:
